@@ -22,6 +22,14 @@ type solverSpec struct {
 var solvers = map[string]solverSpec{
 	"z3-new": {name: "z3-new", argv: func(f string, t int) []string { return []string{"z3-new", fmt.Sprintf("-T:%d", t), f} }},
 	"z3":     {name: "z3", argv: func(f string, t int) []string { return []string{"z3", fmt.Sprintf("-T:%d", t), f} }},
+	// z3-new under a different random seed / arithmetic solver: quantifier instantiation order is sensitive to both, and
+	// a query that stalls under the default configuration is usually decided at once by another one
+	"z3-new-s1": {name: "z3-new-s1", argv: func(f string, t int) []string {
+		return []string{"z3-new", fmt.Sprintf("-T:%d", t), "smt.random_seed=1", "sat.random_seed=1", f}
+	}},
+	"z3-new-a2": {name: "z3-new-a2", argv: func(f string, t int) []string {
+		return []string{"z3-new", fmt.Sprintf("-T:%d", t), "smt.arith.solver=2", f}
+	}},
 	"cvc5": {name: "cvc5", argv: func(f string, t int) []string {
 		return []string{"cvc5", "--lang=smt2", fmt.Sprintf("--tlimit=%d", t*1000), "--enum-inst", f}
 	}, prep: func(s string) string { return "(set-logic ALL)\n" + s }},
@@ -41,6 +49,10 @@ type solveResult struct {
 }
 
 func runSolver(sp solverSpec, dir string, id int, script string, timeoutS int) solveResult {
+	return runSolverCtx(context.Background(), sp, dir, id, script, timeoutS)
+}
+
+func runSolverCtx(parent context.Context, sp solverSpec, dir string, id int, script string, timeoutS int) solveResult {
 	if sp.prep != nil {
 		script = sp.prep(script)
 	}
@@ -50,7 +62,7 @@ func runSolver(sp solverSpec, dir string, id int, script string, timeoutS int) s
 	}
 	defer os.Remove(file)
 	argv := sp.argv(file, timeoutS)
-	ctx, cancel := context.WithTimeout(context.Background(), time.Duration(timeoutS+5)*time.Second)
+	ctx, cancel := context.WithTimeout(parent, time.Duration(timeoutS+5)*time.Second)
 	defer cancel()
 	cmd := exec.CommandContext(ctx, argv[0], argv[1:]...)
 	var out bytes.Buffer
@@ -77,6 +89,8 @@ func runSolver(sp solverSpec, dir string, id int, script string, timeoutS int) s
 		st = "sat"
 	case first == "unknown":
 		st = "unknown"
+	case parent.Err() != nil:
+		st = "cancelled"
 	case strings.Contains(first, "timeout") || ctx.Err() != nil:
 		st = "timeout"
 	case strings.HasPrefix(first, "(error"):
@@ -111,19 +125,33 @@ func discharge(o *Obligation, dir string, id int, tier string, timeoutS int) {
 	if needMore {
 		names := []string{"cvc5", "z3"}
 		if first.status != "unsat" {
-			names = append(names, "cvc5-fmf")
+			names = append(names, "cvc5-fmf", "z3-new-s1", "z3-new-a2")
+		} else if tier == "thorough" {
+			names = append(names, "z3-new-a2")
 		}
+		need := 1
+		if tier == "thorough" {
+			need = 2
+		}
+		ctx, cancel := context.WithCancel(context.Background())
 		ch := make(chan solveResult, len(names))
 		for _, n := range names {
-			go func(n string) { ch <- runSolver(solvers[n], dir, id, o.Script, timeoutS) }(n)
+			go func(n string) { ch <- runSolverCtx(ctx, solvers[n], dir, id, o.Script, timeoutS) }(n)
 		}
 		for range names {
 			r := <-ch
+			if r.status == "cancelled" {
+				continue
+			}
 			results = append(results, r)
 			if r.status == "unsat" && r.solver != "cvc5-fmf" {
 				unsatBy = append(unsatBy, r.solver)
 			}
+			if len(unsatBy) >= need || r.status == "sat" {
+				cancel() // decided: the remaining solvers are not needed
+			}
 		}
+		cancel()
 	}
 	var total int64
 	var outs []string
@@ -185,5 +213,30 @@ func dischargeAll(obls []*Obligation, tier string, timeoutS int, workers int) (s
 	}
 	close(ch)
 	wg.Wait()
+	// second chance for queries that only timed out: the first pass saturates every core (and the machine may be busy
+	// with other checks), so a query that needs a few seconds alone can miss its budget there. Retry them a few at a
+	// time with a doubled budget; an answer found here counts like any other.
+	var retry []int
+	for i, o := range obls {
+		if o.Script != "" && o.Expect == "" && !o.ExpectedToFail && (o.Status == "timeout" || o.Status == "unknown") {
+			retry = append(retry, i)
+		}
+	}
+	if len(retry) > 0 && len(retry) <= 24 {
+		sem := make(chan struct{}, 3)
+		var wg2 sync.WaitGroup
+		for _, i := range retry {
+			wg2.Add(1)
+			sem <- struct{}{}
+			go func(i int) {
+				defer wg2.Done()
+				defer func() { <-sem }()
+				prev := obls[i].Output
+				discharge(obls[i], dir, i, tier, timeoutS*2)
+				obls[i].Output = "[retry after " + trunc(prev, 120) + "]\n" + obls[i].Output
+			}(i)
+		}
+		wg2.Wait()
+	}
 	return dir, nil
 }
